@@ -30,6 +30,43 @@ for (kind, site), a in sorted(by_sig.items()):
             c1.cmd(*s)
         other = srv.client()
         verdict = None
+        if kind == "shared-object":
+            # B3: the in-process run saw two keys holding one object after this input. The witness on the real binary: two
+            # connections write to the two keys at the same time (different lock stripes, one Go map)
+            import threading
+            typ, ka, kb = a["detail"].split("|")
+            c1.cmd(*[x.encode("latin1") for x in a["argv"]], timeout=20.0)
+            wr = {"set": lambda k, i: ["SADD", k, "w%d" % i], "hash": lambda k, i: ["HSET", k, "f%d" % i, "v"], "list": lambda k, i: ["RPUSH", k, "e%d" % i],
+                  "zset": lambda k, i: ["ZADD", k, str(i), "m%d" % i], "stream": lambda k, i: ["XADD", k, "%d-1" % (i + 10), "f", "v"]}.get(typ)
+            stop = [False]
+
+            def hammer(k):
+                try:
+                    cc = srv.client(timeout=5.0)
+                    i = 0
+                    while not stop[0]:
+                        cc.cmd(*wr(k.encode("latin1"), i), timeout=5.0)
+                        i += 1
+                except Exception:
+                    pass
+            ths = [threading.Thread(target=hammer, args=(k,)) for k in (ka, kb, ka, kb)] if wr else []
+            for t in ths:
+                t.start()
+            t_end = time.time() + 4.0
+            while time.time() < t_end and srv.alive():
+                time.sleep(0.05)
+            stop[0] = True
+            for t in ths:
+                t.join(timeout=10)
+            if not srv.alive():
+                verdict = "after this command keys %r and %r hold ONE %s object; two connections writing to them killed the server process (rc=%s): %s" % (ka, kb, typ, srv.p.returncode, srv.tail(300))
+            if verdict:
+                confirmed += 1
+                v.report({"branch": "input." + a["argv"][0].lower(), "kind": "shared-object-crash", "detail": typ},
+                         {"setup": SETUP, "argv": a["argv"], "in_process": a, "tcp": verdict}, what="%s -> %s" % (" ".join(repr(x) for x in a["argv"]), verdict))
+            else:
+                print("NOTE: two keys share one object after %s, but concurrent writes did not kill the server within 4 s (not a C04 verdict)" % a["argv"])
+            continue
         try:
             c1.send_raw(server.encode([x.encode("latin1") for x in a["argv"]]))
             try:
